@@ -512,7 +512,29 @@ pub fn template(rng: &mut Rng, peers: &[String]) -> Instr {
     let p = |rng: &mut Rng| peers[rng.below(n)].clone();
     let mut c = 0usize;
     let mut f = |k: &str| { c += 1; format!("{k}_{}", c + 100) };
-    match rng.below(6) {
+    match rng.below(8) {
+        6 => {
+            // several values in one generation, sequential fold body with a call per value (stalls mid-generation), optional tail after next
+            let n = 2 + rng.below(3);
+            let mut fill = Instr::Ap { arg: lit("a0"), out: Out::Stream("$s".into()) };
+            for k in 1..n { fill = seq(fill, Instr::Ap { arg: lit(&format!("a{k}")), out: Out::Stream("$s".into()) }); }
+            let who = p(rng);
+            let call = callp(&who, &f("echo"), vec![Val::Scalar("i".into())], if rng.chance(1, 2) { Out::Stream("$out".into()) } else { Out::Scalar("o".into()) });
+            let body = match rng.below(3) {
+                0 => seq(call, Instr::Next("i".into())),
+                1 => seq(seq(call, callp(&p(rng), &f("str"), vec![], Out::None)), Instr::Next("i".into())),
+                _ => seq(xor(call, Instr::Null), Instr::Next("i".into())),
+            };
+            let last = if rng.chance(1, 3) { Some(Box::new(callp(&p(rng), &f("str"), vec![], Out::None))) } else { None };
+            seq(fill, Instr::FoldStream { stream: "$s".into(), iter: "i".into(), body: Box::new(body), last })
+        }
+        7 => {
+            // two writers in parallel into one stream, then canon at a third peer and a fold over the canon stream
+            let w = par(callp(&p(rng), &f("str"), vec![], Out::Stream("$s".into())), callp(&p(rng), &f("num"), vec![], Out::Stream("$s".into())));
+            let canon = Instr::Canon { peer: lit(&p(rng)), stream: "$s".into(), canon: "#cs".into() };
+            let fold = Instr::FoldScalar { iterable: Val::Canon("#cs".into()), iter: "i".into(), body: Box::new(seq(callp(&p(rng), &f("echo"), vec![Val::Scalar("i".into())], Out::None), Instr::Next("i".into()))), last: None };
+            seq(w, seq(canon, fold))
+        }
         0 => {
             // stream filled by calls on several peers, folded with parallel work per element, then a join
             let writers = 2 + rng.below(2);
